@@ -12,26 +12,35 @@ From SL Require Import Model.Num Model.InstR Facts.RBase.
 From SLGen Require Import ChkGen.
 Open Scope R_scope.
 
+Ltac split_ifs :=
+  repeat match goal with
+  | |- context [if ?c then _ else _] => destruct c eqn:?
+  end.
+
 Theorem gen_is_one_eq : forall {B : Fld} (eps : F B) v, g_is_one eps v = is_one eps v.
-Proof. reflexivity. Qed.
+Proof. intros; unfold g_is_one; cbv zeta; try reflexivity; split_ifs; reflexivity. Qed.
 
 Theorem gen_is_zero_eq : forall {B : Fld} (eps : F B) v, g_is_zero eps v = is_zero eps v.
-Proof. reflexivity. Qed.
+Proof. intros; unfold g_is_zero; cbv zeta; try reflexivity; split_ifs; reflexivity. Qed.
 
 Theorem gen_check_is_one_eq : forall {B : Fld} (eps : F B) v, g_check_is_one eps v = is_one eps v.
-Proof. intros B eps v; unfold g_check_is_one; destruct (is_one eps v); reflexivity. Qed.
+Proof. intros B eps v; unfold g_check_is_one; cbv zeta; destruct (is_one eps v); reflexivity. Qed.
 
 Theorem gen_check_unit_interval_eq : forall {B : Fld} (eps : F B) v, g_check_unit_interval eps v = g_in_unit_interval eps v.
 Proof.
-  intros B eps v; unfold g_check_unit_interval, g_in_unit_interval;
-  match goal with |- (if ?c then _ else _) = _ => destruct c end; reflexivity.
+  intros B eps v; unfold g_check_unit_interval, g_in_unit_interval; cbv zeta;
+  repeat match goal with
+  | |- context [leb ?a ?b] => destruct (leb a b)
+  | |- context [is_zero ?e ?a] => destruct (is_zero e a)
+  | |- context [is_one ?e ?a] => destruct (is_one e a)
+  end; reflexivity.
 Qed.
 
 Theorem gen_in_unit_interval_eq : forall (eps : R) (v : @V FldR), 0 <= eps <= 1 ->
   g_in_unit_interval (B:=FldR) eps v = in_unit (B:=FldR) eps v.
 Proof.
   intros eps [a|] He; [|reflexivity].
-  unfold g_in_unit_interval, in_unit, is_zero, is_one, leb, cmp2, zero, one, feps2, feps4; cbn.
+  unfold g_in_unit_interval, in_unit, is_zero, is_one, leb, cmp2, zero, one, feps2, feps4; cbv zeta; cbn.
   repeat match goal with |- context [Rleb ?x ?y] => destruct (Rleb_spec x y) end; cbn; try reflexivity; exfalso; lra.
 Qed.
 
